@@ -12,6 +12,10 @@ SPEC = {
             "values and flags; the config flag in all four spellings package flag accepts (-config F, --config F, -config=F, "
             "--config=F), with an empty path, without a value as the last word; without an expectation (model against code "
             "only): the flag given twice, behind --, as the value of another flag; "
+            "F31: booleans also in the documented two-word form (-k true|false|1|0|t|f|…, one in six; -k <no boolean> expects exit 2), "
+            "a stray word / a lone - / -- followed by words at any place among the flags with flags behind them, -- as the last word "
+            "(expectation refused-or: exit 2, or every setting as the documented precedence gives it with every -key value of the "
+            "command line counted; started with anything else is a failure; such cases run in a child process); "
             "non-trivial = the process reached the end of flagSet; distinct = distinct case line. "
             "e2e-settings (e2e_e2esettings.py; the unmodified binary, no hook): 8 quick / 400 thorough settings cycles, run in parallel on "
             "OS-chosen ports and private files: for each of 32 keys whose effect is visible from outside (the four UDP ports, bind "
@@ -25,9 +29,10 @@ SPEC = {
             "and GOMAXPROCS, which listener counts a datagram sent to which port, the largest announcement / NetFlow v5 datagram a "
             "listener takes whole (probes at the octet boundary of udp-size), pid file, log file, the log lines only one value of a "
             "boolean produces, and after SIGTERM exit status 0 and which cache files exist and hold the announced templates — and every "
-            "observation must equal what the documented order gives for the draw (computed by the harness, no vflow code). Plus 8 quick "
-            "/ 80 thorough starts with one unparsable value / unknown flag / flag without value: exit status 1 (environment) or 2 "
-            "(command line), a message naming the flag or quoting the value, nothing left listening. No verdict (skipped:<reason>): a port "
+            "observation must equal what the documented order gives for the draw (computed by the harness, no vflow code). Plus 10 quick "
+            "/ 100 thorough starts with one unparsable value / unknown flag / flag without value / a boolean in the two-word form -k v "
+            "or a stray word (also -, -- and words) with a flag behind it (F31): exit status 1 (environment) or 2 "
+            "(command line), a message naming the flag or quoting the value / the word, nothing left listening. No verdict (skipped:<reason>): a port "
             "taken by another process (redrawn four times), unreadable statistics, probes the collector's own UDPCount says did not all "
             "arrive; a finding must reproduce when the cycle is run again alone, twice",
     "assumptions": ["package flag / strconv / yaml.v2 semantics as transcribed in Vflow.Model.Options",
@@ -43,7 +48,12 @@ SPEC = {
 META = {
     "text": "Lean theorem over every option table, every environment, file system and argument list: if the process reaches "
             "the end of flagSet, every setting equals command line, else the file named by the config flag, else VFLOW_<KEY>, "
-            "else the built-in default; which file: loadCfg's test of a word equals package flag's reading of it as the flag "
+            "else the built-in default — with the command line taken as it is WRITTEN, not as package flag's parser gets through it "
+            "(cliGiven / cliSource: every -key value, -key=value and bare boolean -key of the whole token list; precedence_cli), and "
+            "either the process refuses to start or every key the command line mentions is a registered key whose setting has exactly "
+            "the mentioned value (cli_given_or_refused: no word is silently dropped; flagSet refuses a positional argument with exit 2 "
+            "since the repair of F31, the check regenerated as its last statement; the old flagSet kept as f31_counterexample: "
+            "-ipfix-enabled false -sflow-port 7000 started with sflow-port 6343); which file: loadCfg's test of a word equals package flag's reading of it as the flag "
             "config for every string (config_word_spec), each of the four spellings brings the file at its path into the "
             "precedence (precedence_spelling), and it is the file whose path flag.Parse leaves in config when every word "
             "spelling the flag is read as the flag and it is given at most once (precedence_config_flag; both conditions "
@@ -58,6 +68,8 @@ META = {
             "the hook and its generator; the settings-cycle harness (its key table, its reading of /proc and of the statistics). Out of scope: list-valued sflow-type-filter, "
             "non-canonical yaml scalars, fields without yaml tag as yaml keys. Recorded, not repaired: loadCfg takes the first "
             "config flag (package flag keeps the last) and also words package flag does not read as flags; "
-            "-config / --config as the last word panics instead of flag's message.",
+            "-config / --config as the last word panics instead of flag's message. A boolean written the documented way "
+            "(-key value) is refused with a hint since F31, not interpreted (-verbose -config f must keep its meaning); "
+            "docs/config.md still shows `-key value` for every key.",
     "technique": "Lean 4 proof (stages as data) + go/ast option table + differential run of the real option loading + end-to-end settings cycles of the binary",
 }
